@@ -26,6 +26,8 @@ MANIFEST = {
 }
 ASSUMPTIONS = ["exception classes of the cryptography primitives (InvalidUnwrap/ValueError, InvalidTag/ValueError, ValueError)",
                "offline = the cache holds root keys; a miss is the library trying to contact a DC (NeedNetwork)"]
+STEP_BASE, STEP_PER_OCTET = 20000, 40
+
 PARTIAL = [
     "C05_bounded_kdf_partial: wanted C05_bounded_kdf = at most 2 + 63 + 3 KDF calls per unprotect_offline call as a theorem about a counter threaded through the whole pipeline. "
     "The Crypto record's KDFs are pure functions and the model has no call counter (Model files are not instrumented), so the theorem covers the only loops that call a KDF: the "
@@ -33,6 +35,11 @@ PARTIAL = [
     "uninstrumented run and never exhausts a fuel >= 32. Missing: the constant number of calls of the straight-line code around it (compute_l1_key 2, get_kek / "
     "compute_kek_from_public_key / compute_kek <= 3) is by inspection of the model, and the cost of pow(b, e, m) on attacker-chosen DH parameters is not bounded; the harness "
     "enforces the KDF-call budget on the implementation (symbolic crypto budget).",
+    "'parser steps proportional to input size' has no theorem of its own: C05_no_fuel_exhaustion / C05_l2_loops_within_fuel bound every LOOP of the model by the input length or by 32, "
+    "which bounds the work of the model but is not stated as one linear bound; on the implementation the real-crypto oracle runs every hostile blob under an interpreter-step budget "
+    "of 20000 + 40 per octet (a valid blob takes about 5000 steps whatever its size), a wall-clock limit and a memory limit",
+    "'tries to contact a domain controller' is modelled as the outcome NeedNetwork at the cache miss; the harness replaces lookup_dc, so what dnspython / the socket layer raise while "
+    "trying (including dns.name.EmptyLabel / LabelTooLong for a hostile domain name in the key identifier, raised before any packet is sent) counts as that outcome and is not examined",
 ]
 RULE = ("per valid blob (4 hashes x positions, both layouts): all truncations, all single-bit flips (quick: every 5th), structure-aware DER mutations (zero-length / huge / "
         "indefinite / non-minimal lengths, wrong tags and classes, high tag numbers, INTEGER/OID content edits), key-identifier fields at {0,1,2,31,32,2^31-1,2^31,2^32-1}, "
@@ -132,6 +139,7 @@ def units(ctx: Ctx, only=None):
 def oracles(ctx: Ctx):
     """The same stream against the REAL crypto (no model): only the property predicate."""
     from ..core import run_impl
+    from ..rpc_util import run_budgeted
     from ..val import dec, enc
 
     n = 0
@@ -149,9 +157,14 @@ def oracles(ctx: Ctx):
                 + list(hostile.mutations(blob, ctx.rng, False, flips_step=(11 if not ctx.thorough else 1))):
             n += 1
             rss0, t0 = resource.getrusage(resource.RUSAGE_SELF).ru_maxrss, _time.time()
-            out = dec(run_impl(lambda a: e2e.impl_unprotect(a, symbolic=False), [roots, m]))
+            # interpreter steps (line events) of the whole call: "parser steps proportional to input size" - a valid blob takes about
+            # 5000 whatever its size (the content is never walked octet by octet), the budget is 20000 + 40 per octet
+            budget = STEP_BASE + STEP_PER_OCTET * len(m)
+            out = dec(run_impl(lambda a: run_budgeted(lambda: e2e.impl_unprotect(a, symbolic=False), budget), [roots, m]))
             dt, drss = _time.time() - t0, (resource.getrusage(resource.RUSAGE_SELF).ru_maxrss - rss0) // 1024
             why = pred([roots, m], out)
+            if isinstance(out, Err) and out.name == "OutOfFuel":
+                why = f"more than {budget} interpreter steps on a {len(m)}-octet blob (a valid blob of any size takes about 5000)"
             if not why and (dt > WORK_SECONDS or drss > WORK_MBYTES):
                 why = (f"work is not proportional to the input: a {len(m)}-octet blob took {dt:.1f} s and {drss} MB of additional memory "
                        f"(limits for inputs of this size: {WORK_SECONDS} s, {WORK_MBYTES} MB)")
